@@ -139,6 +139,32 @@ example : readMesh toyCoding defaultReader (refEncode toyCoding exTex)
       · exact (locatedNamedB_sound (specProps exTex) _ _ (by decide)).loc
       · exact (locatedNamedB_sound (specProps exTex) _ _ (by decide)).loc))
 
+/-- … and it LOADS (every face of `exTex` lists existing vertices) -/
+example : ∃ m, readMesh toyCoding defaultReader (refEncode toyCoding exTex) = .ok m :=
+  ⟨_, ply_reads_spec_mesh_tex_loads toyCoding exTex exTex.exTexFaces .uchar .double
+    ⟨by decide, by intro i hi; simp [exTex, exMesh, exFile] at hi, by decide,
+      by intro fe h; simp only [exTex, Option.some.injEq] at h; subst h; decide⟩
+    (by decide) exTex_ok
+    (by
+      intro fc hfc
+      simp only [exTex.exTexFaces, List.mem_cons, List.not_mem_nil, or_false] at hfc
+      rcases hfc with rfl | rfl
+      · exact Or.inl rfl
+      · exact Or.inr rfl)
+    (by decide) (by decide) exBl (by decide)
+    (by
+      intro p hp
+      simp only [exBl, List.mem_cons, List.not_mem_nil, or_false] at hp
+      rcases hp with rfl | rfl
+      · exact (locatedNamedB_sound (specProps exTex) _ _ (by decide)).loc
+      · exact (locatedNamedB_sound (specProps exTex) _ _ (by decide)).loc)⟩
+
+/-- `meaning_tex_indices` is not vacuous -/
+example : ∃ m, meaning toyCoding exTex = some m ∧ m.indices = [0, 1, 2, 3, 4, 5, 6, 7, 8] := by
+  cases h : meaning toyCoding exTex with
+  | none => exact absurd h (by decide)
+  | some m => exact ⟨m, rfl, (meaning_tex_indices toyCoding exTex exTex.exTexFaces _ rfl rfl rfl m h).2⟩
+
 example : texUV toyCoding .double exTex.exTexFaces.faces
     = [[10, 11], [12, 13], [14, 15], [20, 21], [22, 23], [24, 25], [20, 21], [24, 25], [26, 27]] := by decide
 
